@@ -633,13 +633,17 @@ def rdEndOf (res : DataReader.Res) (e : Option RErr) : RdEnd :=
     | some .closed => .closed
     | _ => .ueof
 
+/-- the size of the backend's next `Read`: `rsz`, or what is still missing of `want` -/
+def nextReadSize (want : Option Nat) (rsz got : Nat) : Nat :=
+  match want with
+  | none => rsz
+  | some n => min rsz (n - got)
+
 /-- the scripted backend consumes its DATA reader: up to `want` octets, `rsz` at a time -/
 def backendRead : Nat → DataReader.DR → W → Option Nat → Nat → Bytes → DataReader.DR × W × Bytes × RdEnd
   | 0, r, w, _, _, acc => (r, w, acc, .none)
   | fuel + 1, r, w, want, rsz, acc =>
-    let k := match want with
-      | none => rsz
-      | some n => min rsz (n - acc.length)
+    let k := nextReadSize want rsz acc.length
     if k == 0 then (r, w, acc, .none)
     else
       let (r', w', out, res, e) := Wire.dataRead (Wire.fuelOf w) r w k []
